@@ -218,6 +218,7 @@ def check_fast_load(rep, prop):
 def replay_fast_load(vals, kind):
     rnd = random.Random(str(sorted(vals.items())))
     regs = [vals.get('r%d' % i, 0) for i in range(30)]
+    regs[Z.F] |= 1      # the slice is reached only in LOAD mode (carry set on entry): see check_block_selection
     for attempt in range(200):
         n = max(2, min(vals.get('block_len', 2), 70000)) if attempt == 0 else rnd.choice((2, 3, 19, rnd.randrange(2, 400)))
         block = [rnd.randrange(256) for _ in range(n)]
@@ -320,10 +321,15 @@ def concrete_fast_load(regs, block):
         ret = t.fast_load(sim)
     finally:
         mod.write_line = old
-    er, em = spec_fast_load(regs, mem0, block)
+    if regs[Z.F] & 1:
+        er, em = spec_fast_load(regs, mem0, block)
+        exp_ret = True
+    else:
+        # VERIFY (carry reset on entry): left to the simulated ROM - nothing changes, False is returned
+        er, em, exp_ret = list(regs), list(mem0), False
     d = [(Z.REGNAMES[i], sim.registers[i], er[i]) for i in range(30) if sim.registers[i] != er[i]]
-    if ret is not True:
-        d.append(('return', ret, True))
+    if ret is not exp_ret:
+        d.append(('return', ret, exp_ret))
     bad = [a for a in range(65536) if sim.memory[a] != em[a]]
     if bad:
         d.append(('memory[%d]' % bad[0], sim.memory[bad[0]], em[bad[0]]))
